@@ -27,7 +27,8 @@ def run(ctx):
     P = q.state_of(st[0])
     ctx.ob('C03.crc-start', 'USBDataPacketGenerator.crc.start', not st[0].guard, st[0].loc, 'the CRC restarts while the PID is sent, unconditionally')
     # the zero-length flag by role: the one condition besides tx.ready that the edges out of the PID state test
-    zf = sorted({a for e in fsm.out_edges(P) for a, _ in guard_atoms(e.guard)} - {TR})
+    from ..fsm import lit_atoms
+    zf = sorted({a for e in fsm.out_edges(P) for l in e.guard for a in lit_atoms(l)} - {TR})      # leaf conditions (an Elif arm negates a compound)
     ctx.need(len(zf) == 1 and zf[0] in ir.signals, 'the zero-length flag tested when leaving the PID state (found %s)' % zf)
     ZLP = zf[0]
     oz = state_outcomes(fsm, P, {TR: True, ZLP: True})
